@@ -706,7 +706,8 @@ def run(pid, tier, replay_path=None):
         "cross_oracle_gcoder_disagreements": len([n for n in NOTES if n[0] < nreal and n[1] == "gcoder"]),
         "samples": [{"meta": t["meta"], "calls": [brief_event(e) for e in t["ev"][:12]]} for t in traces[:3]],
     })
-    write_evidence(pid, tier, cov,
+    if not replay_path:
+      write_evidence(pid, tier, cov,
                    ["Machine.tla is the reference interpreter (RS-274/Marlin modal semantics as written there)",
                     "the recorder's projection (public properties, tokenised lines, q-records) is faithful",
                     "exact runs use dyadic grid values so float arithmetic is exact; float runs carry rounding slack"],
